@@ -374,7 +374,7 @@ impl Check for C12 {
     fn generate(&self, g: &mut Xo, tier: Tier, run: u64) -> Sc {
         Sc {
             exp: self.exps[(run as usize) % self.exps.len()].clone(),
-            trials: if tier == Tier::Quick { 200_000 } else { 2_000_000 },
+            trials: if tier == Tier::Quick { 300_000 } else { 5_000_000 },
             seed: g.next_u64(),
             cells_total: self.cells_total(),
         }
@@ -430,7 +430,7 @@ impl Check for C12 {
         tier: Tier,
         _c: &std::collections::BTreeMap<String, u64>,
     ) -> serde_json::Map<String, serde_json::Value> {
-        let trials = if tier == Tier::Quick { 200_000 } else { 2_000_000 };
+        let trials = if tier == Tier::Quick { 300_000 } else { 5_000_000 };
         let mut m = serde_json::Map::new();
         m.insert(
             "stat_budget".into(),
